@@ -512,7 +512,9 @@ fn parse_token(
                     Some(group_index) => group_index == left_index,
                 };
 
-                let stop = my_priority < their_priority || my_priority == their_priority && right_to_left;
+                // a unary suffix node is already complete, whatever follows it can only take it as a left operand
+                let completed_suffix = n.secondary_definition == SecondaryDefinition::UnarySuffix;
+                let stop = !completed_suffix && (my_priority < their_priority || my_priority == their_priority && right_to_left);
 
                 // need to find node with higher priority and stop before it
                 if stop || is_our_group {
